@@ -5,7 +5,7 @@ From Coq Require Import ExtrOcamlBasic.
 From WT Require Import Base.Wrap Base.ListX Base.Bytes Model.Time Model.Ring Model.Update
   Model.Codec Model.Handle Model.Text Model.Args Model.Cmd Model.World Model.Generate Model.Query Model.Wire Model.Server Model.Path Model.FileImage Model.GoWhisperRef Model.Lock Inst.FloatInst.
 Extraction "wtmodel.ml"
-  create sync reopen h_update h_update_many h_fetch h_dfetch h_raw h_header series_times h_fetch_clock h_update_clock h_update_many_clock w_fetch w_update w_update_many
+  create sync reopen create_over h_update h_update_many h_fetch h_dfetch h_raw h_header series_times h_fetch_clock h_update_clock h_update_many_clock w_fetch w_update w_update_many
   enc_ts enc_dur enc_val enc_point enc_points enc_series enc_ainfo enc_header
   dec_ts dec_dur dec_val dec_point dec_points_msg dec_series dec_ainfo dec_header
   new_header expected_file_size
